@@ -22,6 +22,7 @@ EVAL_FUNCS = 'eval_expr, eval_or_expr, eval_and_expr, eval_eq_expr, eval_relatio
 
 PROPS = {
     'C10': dict(
+        standin_ops=['ctx.script'],
         verus_units=['c10_ns'],
         level='proof',
         trusted_base=TRUSTED_VERUS,
@@ -31,6 +32,7 @@ PROPS = {
         explanation='caller-side prefix bindings and name-test comparison: Context::add_ns makes the prefix resolve to the new URI and leaves every other prefix alone (re-binding replaces), remove_ns unbinds exactly that prefix, get_ns_uri answers the first binding, expanded_name resolves a prefixed QName through the bindings (NotFoundNamespace when unbound) and gives an unprefixed one the default binding, equal_qname compares local part and URI and never the prefix; a lemma shows that renaming prefixes injectively in bindings and QName alike leaves every resolution unchanged',
     ),
     'C15': dict(
+        standin_ops=['info.text.insert', 'info.comment.insert', 'info.cdata.insert', 'dom.text.insert_data', 'dom.text.append_data', 'dom.comment.insert_data', 'dom.comment.append_data', 'dom.cdata.insert_data', 'dom.cdata.append_data'],
         verus_units=['c16_chardata'],
         level='proof',
         trusted_base=TRUSTED_VERUS,
@@ -39,6 +41,7 @@ PROPS = {
         explanation='character data only: whenever insert/delete on a text, comment or CDATA information item reports success, the stored string is still lexically valid for its node kind (no ]]> in text or CDATA, no -- in a comment and no trailing -, no < or & in text, only XML Chars), also when the offending sequence arises only from joining the edit with the existing data',
     ),
     'C14': dict(
+        standin_ops=['order.script', 'dom.order_keys'],
         verus_units=['c14_order'],
         level='proof',
         trusted_base=TRUSTED_VERUS,
@@ -47,6 +50,7 @@ PROPS = {
         explanation='the DocumentOrder layer: get/push/remove/insert_after/insert_before of info/src/lib.rs verified against a sequence-of-live-ids view with the data-structure invariant "no live id twice": the key of a node is 1 + its first index (0 when absent), so keys of present nodes are non-zero and pairwise distinct (lemma), push appends without moving any other key, remove deletes exactly one entry, insert_after/insert_before place the node directly next to the reference node, and a refused call changes nothing',
     ),
     'C19': dict(
+        standin_ops=['xpath.query.ctx_reuse'],
         verus_units=['eval_ctx'],
         level='proof',
         trusted_base=TRUSTED_VERUS,
@@ -55,6 +59,7 @@ PROPS = {
         explanation='context-stack balance of the XPath evaluator: all 19 eval_* functions of xpath/src/eval/mod.rs and the six push/pop/get methods of model::Context are extracted and each is verified against the contracts of its callees: when a function returns, with Ok or with Err, the size and position stacks and the namespace bindings of the caller\'s context are exactly what they were on entry; so a query that fails inside a predicate cannot change the answer of a later query on the same context',
     ),
     'C07': dict(
+        standin_ops=['xpath.query.order'],
         verus_units=['eval_ctx'],
         level='proof',
         trusted_base=TRUSTED_VERUS,
@@ -64,6 +69,7 @@ PROPS = {
         explanation='ordering and duplicate-freeness of node-sets in the evaluator skeleton: every value-returning eval_* function promises that a node-set value lists strictly increasing order keys (eval_path_expr / eval_filtered_loc_expr: non-strictly, after the sort); eval_union_expr must re-establish it over the concatenation of its operands, eval_filter_expr must keep it through predicate filtering (so positional predicates on a parenthesised node-set count in document order)',
     ),
     'C06': dict(
+        standin_ops=['xpath.query.no_panic'],
         verus_units=['eval_ctx', 'func_strings'],
         level='proof',
         trusted_base=TRUSTED_VERUS,
@@ -73,6 +79,7 @@ PROPS = {
     ),
 
     'C18': dict(
+        standin_ops=['xmlchar.is_char', 'xmlchar.is_name_start_char', 'xmlchar.is_name_char', 'xmlchar.is_pubid_char', 'xmlchar.is_enc_name'],
         verus_units=['c18_xmlchar'],
         kani=['c18'],
         level='proof',
@@ -82,6 +89,7 @@ PROPS = {
         explanation='classification half of C18: every is_* predicate of nom/src/xmlchar.rs equals the production range table for every char; Verus (SMT, all chars) and Kani (loop-free, kani::any::<char>(), complete) as two independent back ends',
     ),
     'C09': dict(
+        standin_ops=['xpath.func.floor', 'xpath.func.ceiling', 'xpath.func.round', 'xpath.func.boolean', 'xpath.func.not', 'xpath.func.number', 'xpath.func.substring', 'xpath.func.string_length', 'xpath.cmp.equal_value', 'xpath.cmp.not_equal_value', 'xpath.cmp.less_than_value', 'xpath.cmp.less_eq_value', 'xpath.cmp.greater_than_value', 'xpath.cmp.greater_eq_value', 'xpath.op.neg'],
         verus_units=['func_strings'],
         kani=['c09'],
         level='proof',
@@ -94,6 +102,7 @@ PROPS = {
         explanation='scalar semantics of the core library on the real crate: floor/ceiling/round/xpath_round for every f64 (ties towards +infinity, -0 for [-0.5,0)); boolean()/not()/number() coercions for every number and boolean; unary minus; the six comparison operators on every pair of Boolean/Number operands (coercion order of XPath 3.4, every comparison with NaN false except !=); + - * div as IEEE 754 (thorough tier); substring: substring_range selects exactly the positions round(start) <= p < round(start)+round(length) for every f64 and every length/position (Kani, loop-free), and substring() returns the characters of that range (Verus, all strings); string-length counts characters (Verus, String::len given its byte-length contract)',
     ),
     'C16': dict(
+        standin_ops=['dom.text.length', 'dom.text.substring_data', 'dom.text.insert_data', 'dom.text.delete_data', 'dom.text.replace_data', 'dom.text.append_data', 'dom.text.set_data', 'dom.comment.length', 'dom.comment.substring_data', 'dom.comment.insert_data', 'dom.comment.delete_data', 'dom.comment.replace_data', 'dom.comment.append_data', 'dom.comment.set_data', 'dom.cdata.length', 'dom.cdata.substring_data', 'dom.cdata.insert_data', 'dom.cdata.delete_data', 'dom.cdata.replace_data', 'dom.cdata.append_data', 'dom.cdata.set_data', 'info.delete_char_range', 'info.insert_char_at'],
         verus_units=['c16_chardata'],
         level='proof',
         trusted_base=TRUSTED_VERUS,
@@ -102,6 +111,7 @@ PROPS = {
         explanation='DOM Level 1 CharacterData over the character sequence of text, comment and CDATA nodes, three layers (info helpers, info methods, DOM methods and CharacterDataMut trait defaults), every function verified against the contracts of its callees for all contents, offsets and counts, including absence of overflow and of std panics',
     ),
     'C13': dict(
+        standin_ops=['dom.text.insert_data', 'dom.text.delete_data', 'dom.text.replace_data', 'dom.text.append_data', 'dom.text.set_data', 'dom.comment.insert_data', 'dom.comment.delete_data', 'dom.comment.replace_data', 'dom.comment.append_data', 'dom.comment.set_data', 'dom.cdata.insert_data', 'dom.cdata.delete_data', 'dom.cdata.replace_data', 'dom.cdata.append_data', 'dom.cdata.set_data'],
         verus_units=['c16_chardata'],
         level='proof',
         trusted_base=TRUSTED_VERUS,
@@ -110,6 +120,7 @@ PROPS = {
         explanation='character-data setters only: insert_data, delete_data, replace_data, set_data, append_data on the three node kinds raise IndexSizeErr exactly for an offset past the end, never for a count running past the end, and leave the data unchanged whenever they return Err (atomic failure)',
     ),
     'C02': dict(
+        standin_ops=['info.char_from_char10', 'info.char_from_char16'],
         verus_units=['info_helpers'],
         level='proof',
         trusted_base=TRUSTED_VERUS,
@@ -118,6 +129,7 @@ PROPS = {
         explanation='character-reference half of C02: info::char_from_char10/16 return Ok(c) only when the parsed number is c and c matches production [2] Char (WFC Legal Character), reject unparsable digits, accept every legal one; verified modularly against the contract of xmlchar::is_char, which is re-verified in the same unit',
     ),
     'C04': dict(
+        standin_ops=['info.escape'],
         verus_units=['info_helpers'],
         level='proof',
         trusted_base=TRUSTED_VERUS,
@@ -126,6 +138,7 @@ PROPS = {
         explanation='quote selection of the printer: info::escape(v) returns q + v + q with q a quote character that does not occur in v, for every v that does not contain both quote characters, so the literal re-reads as v under productions [10]-[12]',
     ),
     'C11': dict(
+        standin_ops=['info.normalize_ws'],
         verus_units=['info_helpers'],
         level='proof',
         trusted_base=TRUSTED_VERUS,
